@@ -289,6 +289,10 @@ def apply_op(fam, m, op, state):
         # a prediction under other numerical settings (jitter contexts); later predictions run under the defaults again
         with S.variational_cholesky_jitter(float_value=1e-2, double_value=1e-2), S.cholesky_jitter(float_value=1e-3, double_value=1e-3):
             return predict(m, f.xs)
+    elif op == "pred_loose":
+        # a quick-and-rough prediction: iterative solves stopped early, rank-3 LOVE cache
+        with S.max_cholesky_size(0), S.eval_cg_tolerance(0.3), S.max_root_decomposition_size(3):
+            return predict(m, f.xs, (True, True, False, True))
     elif op in ("train_step_frozen", "train_step_jitter"):
         # (frozen) fine-tuning with part of the parameters frozen: the variational parameters and inducing points of a
         # variational model, the kernel of an exact one. (jitter) the step is taken under other jitter settings.
